@@ -44,9 +44,19 @@ def h(*parts) -> int:
 
 
 def mk_filter(w, f, arity):
+    """one callable per (world, filter, arity): the neighbour memo is keyed by the callable's identity"""
     t = f["t"]
     if t == "none":
         return None
+    memo = w.__dict__.setdefault("_filter_memo", {})
+    mk = (t, tuple(f["L"]), tuple(f["V"]), arity)
+    if mk not in memo:
+        memo[mk] = _mk_filter(w, f, arity)
+    return memo[mk]
+
+
+def _mk_filter(w, f, arity):
+    t = f["t"]
     if t == "all":
         return (lambda e, v: True) if arity == 2 else (lambda e: True)
     if t == "rej":
@@ -229,8 +239,28 @@ def descs_search(S, salt, count):
                         yield desc(q, (s, val), M=M, attr=attr)
 
 
+CACHE_KEYS_QUICK = [(0, 1, NOF), (1, 1, NOF), (2, 1, NOF), (0, 2, NOF), (1, 1, sel(L=[1]))]
+CACHE_KEYS_FULL = [(d, u, f) for d in (0, 1, 2) for u in (0, 1, 2) for f in (NOF, sel(L=[1]), sel(V=[2]))]
+
+
+def descs_cache(S, full):
+    keys = CACHE_KEYS_FULL if full else CACHE_KEYS_QUICK
+    n = S["bv"]
+    for v in range(1, n + 1):
+        if qdom(S, v):
+            for d, u, f in keys:
+                yield desc("nb", (v, d, u), f=f)
+    if all(qdom(S, v) for v in range(1, n + 1)) and all(0 not in S["ends"][e] for e in range(S["nl"])):
+        for s in range(1, n + 1):
+            for q in (("bft", "dftr", "dfti") if full else ("bft", "dfti" if s % 2 else "dftr")):
+                for d in ((0, 1, 2) if full else (0, 1)):
+                    yield desc(q, (s, d, 1))
+
+
 def descs(S, spec):
     kind = spec["kind"]
+    if kind == "C05":
+        return descs_cache(S, spec.get("full", False))
     if kind == "C04":
         return descs_nb(S)
     if kind == "C09":
